@@ -45,6 +45,8 @@ type PCmd struct {
 	Hints []string         `json:"hints,omitempty"`
 	Bytes uint64           `json:"bytes,omitempty"`
 	Aggs  []AggSpec        `json:"aggs,omitempty"`
+	ID    string           `json:"id,omitempty"`
+	Async bool             `json:"async,omitempty"`
 }
 
 type PFrac struct {
@@ -67,6 +69,9 @@ type PResp struct {
 	Arg     string            `json:"arg,omitempty"`
 	Fracs   []PFrac           `json:"fracs,omitempty"`
 	Points  []string          `json:"points,omitempty"`
+	Aggs    []AggOut          `json:"aggs,omitempty"`
+	Done    bool              `json:"done,omitempty"`
+	Found   bool              `json:"found,omitempty"`
 }
 
 var ErrDead = errors.New("store process died")
@@ -213,11 +218,16 @@ func (p *Proc) StderrTail() string {
 // Open starts a child and opens the store; a start-up failure is what it is: the exit
 // status of a process (or an error response).
 func OpenProc(dir string, o StoreOpts, fsync bool) (*Proc, error) {
+	return OpenProcAsync(dir, o, fsync, false)
+}
+
+// OpenProcAsync also starts the store's AsyncSearcher (which resumes unfinished searches).
+func OpenProcAsync(dir string, o StoreOpts, fsync, async bool) (*Proc, error) {
 	p, err := StartProc()
 	if err != nil {
 		return nil, err
 	}
-	r, err := p.Do(PCmd{Op: "open", Dir: dir, Opts: &o, Fsync: fsync})
+	r, err := p.Do(PCmd{Op: "open", Dir: dir, Opts: &o, Fsync: fsync, Async: async})
 	if err != nil {
 		return p, fmt.Errorf("store did not come up: exit status %d, stderr: %s", p.Exit, p.StderrTail())
 	}
